@@ -41,6 +41,9 @@ import (
 //	                      under another stream name (errors unhandled)
 //	renamed-before-each   before each P: P's text verbatim under another stream name
 //	all-decoys-first      the decoys of ALL cases first (kind by case), then all P
+//	decoy-concurrent      each P while its decoy (kind by case) runs in another
+//	                      goroutine: which of the two reaches the library first is up
+//	                      to the scheduler, which the property excludes as well
 //
 // Oracle (the property's text, nothing else): the transcript of P — value, message,
 // rendering with location, Stderr, steps, ErrorVal.Error, call-stack frames — is
@@ -188,7 +191,7 @@ func c10EarlierAux(args []string) int {
 		switch mode {
 		case "wrapped-before-each", "shifted-before-each", "renamed-before-each":
 			return strings.TrimSuffix(mode, "-before-each")
-		case "all-decoys-first":
+		case "all-decoys-first", "decoy-concurrent":
 			return c10DecoyKinds[idx%len(c10DecoyKinds)]
 		}
 		return "-"
@@ -203,10 +206,19 @@ func c10EarlierAux(args []string) int {
 	for _, idx := range order {
 		src, _, _ := c10EarlierCase(sd, idx)
 		kind := kindOf(idx)
-		if kind != "-" && mode != "all-decoys-first" {
+		var t string
+		switch {
+		case mode == "decoy-concurrent":
+			done := make(chan string)
+			go func() { done <- c10RunDecoy(kind, src, idx) }()
+			t = c10Transcript(src)
+			decoyCond[idx] = <-done
+		case kind != "-" && mode != "all-decoys-first":
 			decoyCond[idx] = c10RunDecoy(kind, src, idx)
+			t = c10Transcript(src)
+		default:
+			t = c10Transcript(src)
 		}
-		t := c10Transcript(src)
 		same := "-"
 		if kind != "-" {
 			same = "0"
@@ -219,7 +231,7 @@ func c10EarlierAux(args []string) int {
 	return 0
 }
 
-var c10EarlierModes = []string{"alone", "alone-reversed", "wrapped-before-each", "shifted-before-each", "renamed-before-each", "all-decoys-first"}
+var c10EarlierModes = []string{"alone", "alone-reversed", "wrapped-before-each", "shifted-before-each", "renamed-before-each", "all-decoys-first", "decoy-concurrent"}
 
 type c10EarlierOut struct {
 	hash, kind, same, transcript string
